@@ -44,6 +44,7 @@ ac0 = AC()
 o0 = object()
 
 NoneType = type(None)
+EnumMeta = enum.EnumMeta
 
 CLASSES = {
     "object": object,
@@ -62,6 +63,7 @@ CLASSES = {
     "AC": AC,
     "E": E,
     "IE": IE,
+    "EnumMeta": enum.EnumMeta,
 }
 # name -> Coq constructor
 COQ_CLS = {
@@ -81,6 +83,7 @@ COQ_CLS = {
     "AC": "CAC",
     "E": "CE",
     "IE": "CIE",
+    "EnumMeta": "CEnumMeta",
 }
 CLS_ORDER = list(COQ_CLS)  # order = Base.cls_code
 INSTANCES = {("A", 0): a0, ("A", 1): a1, ("B", 0): b0, ("C", 0): c0, ("Falsy", 0): f0, ("AC", 0): ac0, ("object", 0): o0}
